@@ -1,5 +1,6 @@
 from __future__ import annotations
 
+import re
 from dataclasses import dataclass, field
 from typing import Any, ClassVar
 
@@ -18,6 +19,9 @@ from nix_manipulator.expressions.trivia import (
     gap_between,
     layout_from_gap,
 )
+
+
+_PATH_START_RE = re.compile(r"[A-Za-z0-9._+-]*/(?:[A-Za-z0-9._+-]|\$\{)")
 
 
 @dataclass(slots=True, repr=False)
@@ -118,6 +122,15 @@ class UnaryExpression(TypedExpression):
             include_indent=False,
             drop_blank_line_if_items=False,
         )
+
+        if (
+            self.operator == "-"
+            and not between_str
+            and not operand_prefix
+            and _PATH_START_RE.match(expression_str)
+        ):
+            # `-./a` and `-a/b` lex as a single path token.
+            operand_prefix = " "
 
         indentation = "" if inline else " " * indent
         if self.operator == "++" and not inline:
